@@ -335,3 +335,30 @@ class Anchors:
                         if self.a.r.ann_to_type(c.func.module, c.func.param_annotation(p_)) is self.ComponentContext:
                             return c.func
         raise AnalysisError("anchor-missing component starter coroutine")
+
+
+def include_rules(ctx, modname: str, as_rule: str, only: tuple = ()) -> None:
+    """Run another property's rule module on the same analysis and adopt its instances under
+    this property's rule id (shared obligations, e.g. C14 relies on merge_config being a deep
+    right-biased merge, which C17 decides)."""
+    import importlib
+
+    from ..report import Report
+
+    mod = importlib.import_module(f"sa.rules.{modname}")
+
+    class _Sub:
+        pass
+
+    sub = _Sub()
+    sub.p, sub.a, sub.tier = ctx.p, ctx.a, ctx.tier
+    sub.thorough = ctx.tier == "thorough"
+    sub.rep = Report(ctx.rep.prop, ctx.tier, ctx.rep.seed)
+    mod.run(sub)
+    for i in sub.rep.instances:
+        if only and i.rule not in only:
+            continue
+        i.why = f"[{i.rule}] {i.why}"
+        i.rule = as_rule
+        ctx.rep.instances.append(i)
+    ctx.rep.functions_analysed |= sub.rep.functions_analysed
